@@ -171,7 +171,7 @@ type PeerConfig struct {
 
 func (p PeerConfig) validate(opts peerOptions) error {
 	if !opts.localAddress.IsValid() && p.RemoteAddress.IsValid() {
-		return nil
+		return p.validateAS()
 	}
 	localIsIPv4 := opts.localAddress.Is4()
 	remoteIsIPv4 := p.RemoteAddress.Is4()
@@ -183,6 +183,10 @@ func (p PeerConfig) validate(opts peerOptions) error {
 			return errors.New("invalid peer address pair")
 		}
 	}
+	return p.validateAS()
+}
+
+func (p PeerConfig) validateAS() error {
 	// https://tools.ietf.org/html/rfc7607
 	//
 	// If a BGP speaker receives zero as the peer AS in an OPEN message, it
